@@ -1,7 +1,7 @@
 #!/usr/bin/env python3
 """Runs every seeded change under /verif/seeded/<ID>/<x>/patch.diff against the check of its own property (plus extra
 properties given in meta 'also'), on a scratch worktree (never /repo), and writes /verif/seeded/results.json."""
-import json, os, subprocess, sys, glob
+import json, os, re, subprocess, sys, glob
 os.chdir('/verif')
 res = {}
 only = set(sys.argv[1:])
@@ -10,14 +10,14 @@ for meta in sorted(glob.glob('seeded/*/*/meta.json')):
     if only and pid not in only: continue
     patch = f'/verif/seeded/{pid}/{x}/patch.diff'
     props = [pid] + json.load(open(meta)).get('also_check', [])
-    out = subprocess.run(['tools/mut.sh', patch] + props, capture_output=True, text=True).stdout
+    out = subprocess.run(['tools/mut.sh', patch] + props, capture_output=True).stdout.decode('utf-8', 'replace')
     entry = {}
     for line in out.splitlines():
         if line.startswith('PATCH-DOES-NOT-APPLY'):
             entry['error'] = 'patch does not apply'
         parts = line.split(' ', 2)
         if len(parts) >= 2 and parts[1].startswith('exit='):
-            rules = sorted(set(seg.split('|')[0].replace('violated: ', '').strip() for seg in line.split(';') if 'violated: ' in seg))
+            rules = sorted(set(re.findall(r'violated: (R-C\d+-\d+)', line)))
             entry[parts[0]] = {'exit': int(parts[1][5:]), 'rules': rules}
     res[f'{pid}/{x}'] = entry
     print(pid, x, entry, flush=True)
